@@ -3,6 +3,7 @@ import PflDrv.FA
 import PflDrv.CFG
 import PflDrv.PDA
 import PflDrv.FST
+import PflDrv.Indexed
 open Lean PflDrv
 
 def dispatch (j : Json) : R Json := do
@@ -11,6 +12,7 @@ def dispatch (j : Json) : R Json := do
   else if op.startsWith "cfg." then cfgHandle op j
   else if op.startsWith "pda." then pdaHandle op j
   else if op.startsWith "fst." then fstHandle op j
+  else if op.startsWith "ig." then igHandle op j
   else if op == "ping" then pure (Json.str "pong")
   else throw s!"unknown op {op}"
 
